@@ -82,6 +82,8 @@ type RowLoopSpec struct {
 	Out    []ast.Expr // output polynomials (their row Var is what the iteration may write)
 	Pre    []*Clause
 	Post   []*Clause
+	Assigns []ast.Expr // loop-invariant scratch regions every iteration may write (e.g. a shared buffer row)
+	Cuts   []*Clause // proved in order at the end of the iteration, then assumed by the later cuts / posts
 	Calls  []*WrapSpec // rowcall: the iteration must establish the callee's contract on these arguments
 	Line   string
 }
@@ -371,6 +373,24 @@ func handleLine(cur **Contract, out *[]*Contract, pkgPath, text, line string) er
 		}
 		c.RowLoops[n] = rl
 		c.curRow = rl
+	case "rowassigns":
+		if c.curRow == nil {
+			return fmt.Errorf("%s: rowassigns without rowloop", line)
+		}
+		es, err := parseExprList(rest, line)
+		if err != nil {
+			return err
+		}
+		c.curRow.Assigns = append(c.curRow.Assigns, es...)
+	case "rowcut":
+		if c.curRow == nil {
+			return fmt.Errorf("%s: rowcut without rowloop", line)
+		}
+		cl, err := parseClause(rest, line)
+		if err != nil {
+			return err
+		}
+		c.curRow.Cuts = append(c.curRow.Cuts, cl)
 	case "rowpre", "rowpost":
 		if c.curRow == nil {
 			return fmt.Errorf("%s: %s without rowloop", line, kw)
